@@ -70,6 +70,13 @@ def shapes(inst):
         s["t_supply"], s["t_target"] = vu(s["t_supply"], "degC"), vu(s["t_target"], "degC")
         s["heat_flow"], s["dt_cont"], s["htc"] = vu(s["heat_flow"], "kW"), vu(s["dt_cont"], "degC"), vu(s["htc"], "kW/m2/K")
     add("value-with-unit", pv)
+    pm = A.problem([hot, cold], ["A", "A"], utilities=[u("HP", "Hot", top, top), u("CW", "Cold", bot, bot)])
+    pm["utilities"][0]["t_target"] = vu(top, "degC")                                  # same value, float vs value-with-unit
+    pm["utilities"][1]["t_supply"], pm["utilities"][1]["t_target"] = vu(bot, "degC"), vu(bot, "C")   # same value, different unit strings
+    add("isothermal-utility-mixed-representation", pm)
+    Z = A.lattice(A.zero_inst(inst), 2)                                               # [-step, 0.0]: everything below ambient (T_ENV = 15)
+    add("sub-ambient-only-hot", A.problem([(Z[1], Z[0], cpu * step, d)], ["A"]))
+    add("sub-ambient-threshold", A.problem([(Z[1], Z[0], 2 * cpu * step, d), (Z[0], Z[1], cpu * step, d)], ["A", "B"]))
     add("zone-tree", A.problem([hot, cold, cold2], ["X", "Y", "X"], zone_tree={"name": "Plant", "type": "Site", "children": [
         {"name": "X", "type": "Process Zone"}, {"name": "Y", "type": "Process Zone"}]}))
     add("nested-labels", A.problem([hot, cold, cold2, hot2], ["A", "A/B", "A/B/C", "D"]))
@@ -225,7 +232,7 @@ SUBCHECKS = {
         rule="case = (input shape, option deviations); every case is non-trivial by construction (a degenerate shape or a deviating option); "
              "transitions = 2 service calls (the repeat check); outcomes = distinct target lists or 'raises'",
         cases=cases, run=run,
-        bound=lambda t: "18 named shapes x all option assignments with <=1 deviation (18) + all <=2-multisets of 36 lattice stream types x {defaults, each boolean option flipped}" if t == "quick"
-        else "18 named shapes x all option assignments with <=2 deviations (~150) + lattice multisets x all <=1 deviations",
+        bound=lambda t: "21 named shapes x all option assignments with <=1 deviation (18) + all <=2-multisets of 36 lattice stream types x {defaults, each boolean option flipped}" if t == "quick"
+        else "21 named shapes x all option assignments with <=2 deviations (~150) + lattice multisets x all <=1 deviations",
     ),
 }
